@@ -2,10 +2,13 @@ package main
 
 import (
 	"bytes"
+	"context"
 	"crypto/tls"
+	"encoding/json"
 	"fmt"
 	"net"
 	"os"
+	"os/exec"
 	"path/filepath"
 	"runtime/debug"
 	"runtime/pprof"
@@ -258,6 +261,17 @@ func c15setup(tier string, seed uint64) int {
 		for _, l := range []string{"plain", "tls", "both"} {
 			c15.gated = append(c15.gated, c15gated{Kind: "accept-fails-transiently", Listeners: l, Rep: rep})
 		}
+		// a failure of Accept with an error the runtime does not call temporary (a pending network error of the
+		// connection being accepted, no buffer space, ...), injected into the accept4 system call by strace
+		hard := []string{"ENOBUFS", "EPROTO", "EHOSTUNREACH", "EMFILE"}
+		if tier == "thorough" {
+			hard = append(hard, "ENOMEM", "EPERM", "ENETDOWN", "ENFILE", "EOPNOTSUPP")
+		}
+		for _, l := range []string{"plain", "tls", "both"} {
+			for _, e := range hard {
+				c15.gated = append(c15.gated, c15gated{Kind: "accept-fails-hard", Listeners: l, Plain: e, Rep: rep})
+			}
+		}
 		// Stop while all registered clients hang up (free-running: Stop's walk over the registry races with the
 		// connection goroutines finishing on their own)
 		hangups := map[string]int{"quick": 18, "thorough": 60}[tier]
@@ -377,6 +391,9 @@ func startFailsInTLSHalf(idx int, g c15gated) run.Result {
 func c15runGated(idx int, g c15gated) run.Result {
 	if g.Kind == "start-fails-in-tls-half" {
 		return startFailsInTLSHalf(idx, g)
+	}
+	if g.Kind == "accept-fails-hard" {
+		return acceptFailsHard(idx, g)
 	}
 	var res run.Result
 	res.Idx = idx
@@ -832,6 +849,156 @@ func acceptFailsTransiently(res *run.Result, s *lcServer, ctl *sched.Ctl, sig st
 	if why != "" {
 		res.Violate(sig+":not-serving-after-accept-error", "after Start returns the server accepts and serves connections on every enabled port until Stop is called", "after Accept failed once for lack of descriptors (EMFILE) and descriptors were available again: "+why, desc)
 	}
+}
+
+// acceptFailsHard: the whole scenario runs in a victim process (this binary, `c15-accept-victim`) under
+// `strace -e inject=accept4:error=<errno>:when=2+2`: every second accept4 call of every thread of the victim fails
+// with the chosen errno without being executed (the connection stays in the listen queue). The victim starts the
+// server, asks every enabled port for service six times, stops it, probes what Stop promises, starts it again and
+// asks for service again. The number of injected failures is read from strace's log: none injected = inconclusive.
+func acceptFailsHard(idx int, g c15gated) run.Result {
+	var res run.Result
+	res.Idx = idx
+	res.Classes = []string{"gated:" + g.Kind, "accept-errno:" + g.Plain}
+	res.Key = gen.Hash64([]byte(fmt.Sprint(g)))
+	res.NonTrivial = true
+	desc := map[string]any{"scenario": g.Kind, "listeners": g.Listeners, "errno": g.Plain, "rep": g.Rep}
+	sconn.NextSeq()
+	strace, err := exec.LookPath("strace")
+	if err != nil {
+		res.Inconclusive = "strace is not installed"
+		return res
+	}
+	self, err := os.Executable()
+	if err != nil {
+		res.Inconclusive = "own executable unknown"
+		return res
+	}
+	logf, err := os.CreateTemp("", "c15-strace-*.log")
+	if err != nil {
+		res.Inconclusive = "no temporary file"
+		return res
+	}
+	logf.Close()
+	defer os.Remove(logf.Name())
+	ctx, cancel := context.WithTimeout(context.Background(), 150*time.Second)
+	defer cancel()
+	cmd := exec.CommandContext(ctx, strace, "-f", "-qq", "-o", logf.Name(), "-e", "trace=accept4", "-e", "inject=accept4:error="+g.Plain+":when=2+2", self, "c15-accept-victim", g.Listeners)
+	cmd.Env = append(os.Environ(), "GORACE=halt_on_error=0 history_size=3")
+	var stderr bytes.Buffer
+	cmd.Stderr = &stderr
+	done := make(chan struct{})
+	go func() { // progress for the child watchdog while the victim works
+		for {
+			select {
+			case <-done:
+				return
+			case <-time.After(500 * time.Millisecond):
+				sconn.NextSeq()
+			}
+		}
+	}()
+	out, runErr := cmd.Output()
+	close(done)
+	trace, _ := os.ReadFile(logf.Name())
+	injected := bytes.Count(trace, []byte("(INJECTED)"))
+	res.Count("accept_failures_injected_by_strace", int64(injected))
+	var victim *run.Result
+	for _, l := range bytes.Split(out, []byte("\n")) {
+		if bytes.HasPrefix(l, []byte("RESULT ")) {
+			var r run.Result
+			if json.Unmarshal(l[len("RESULT "):], &r) == nil {
+				victim = &r
+			}
+		}
+	}
+	if victim == nil {
+		if bytes.Contains(stderr.Bytes(), []byte("WARNING: DATA RACE")) || bytes.Contains(stderr.Bytes(), []byte("panic:")) || bytes.Contains(stderr.Bytes(), []byte("fatal error:")) {
+			res.Violate("C15:accept-fails-hard:victim-died", "the server survives a failing Accept", clipS(stderr.String(), 3000), desc)
+			return res
+		}
+		res.Inconclusive = fmt.Sprintf("the victim under strace gave no result (%v): %s", runErr, clipS(stderr.String(), 300))
+		return res
+	}
+	if victim.Inconclusive != "" {
+		res.Inconclusive = victim.Inconclusive
+		return res
+	}
+	if injected == 0 {
+		res.Inconclusive = "strace injected no accept4 failure"
+		return res
+	}
+	for k, v := range victim.Counters {
+		res.Count(k, v)
+	}
+	for _, v := range victim.Violations {
+		res.Violate(v.Sig, v.Clause, fmt.Sprintf("with every second accept4 call failing with %s (%d failures injected by strace): %s", g.Plain, injected, v.Detail), desc)
+	}
+	res.AddSet("schedules", fmt.Sprint(g.Kind, g.Listeners, g.Plain))
+	res.Sample = desc
+	return res
+}
+
+// c15AcceptVictimMain: `vcheck c15-accept-victim <listeners>`, run under strace by acceptFailsHard.
+func c15AcceptVictimMain(args []string) int {
+	var res run.Result
+	emit := func() int {
+		b, _ := json.Marshal(&res)
+		fmt.Printf("RESULT %s\n", b)
+		return 0
+	}
+	if len(args) < 1 {
+		return 2
+	}
+	listeners := args[0]
+	sig := "C15:accept-fails-hard:" + listeners
+	s := newLcServer(listeners)
+	if s == nil {
+		res.Inconclusive = "pki unavailable"
+		return emit()
+	}
+	if err := s.srv.Start(); err != nil {
+		res.Inconclusive = "Start failed: " + err.Error()
+		return emit()
+	}
+	serving := func(when string) bool {
+		// a retrying accept loop pauses between attempts and every second attempt fails: the probe's own 5 s dial
+		// and 20 s reply deadlines are the watchdog
+		for round := 0; round < 6; round++ {
+			var why string
+			for attempt := 0; attempt < 3; attempt++ {
+				if why = s.probeServing(); why == "" {
+					break
+				}
+				time.Sleep(300 * time.Millisecond)
+			}
+			if why != "" {
+				res.Violate(sig+":not-serving-"+when, "after Start or Restart returns without error the server accepts and serves connections on every enabled port until Stop is called", fmt.Sprintf("service request %d %s: %s", round+1, when, why), nil)
+				return false
+			}
+			res.Count("service_requests_answered_under_accept_faults", 1)
+		}
+		return true
+	}
+	ok := serving("after-start")
+	stopErr := s.srv.Stop()
+	if !afterStopReturned(&res, s, sig+":stop", stopErr, nil) || !ok {
+		s.srv.Stop()
+		return emit()
+	}
+	if err := s.srv.Start(); err != nil {
+		res.Violate(sig+":start-after-stop", "after Stop returns the ports can be bound again and Start works", "Start after Stop failed: "+err.Error(), nil)
+		return emit()
+	}
+	serving("after-second-start")
+	if err := s.srv.Restart(); err != nil {
+		res.Violate(sig+":restart", "Restart on a running server returns without error", "Restart failed: "+err.Error(), nil)
+		s.srv.Stop()
+		return emit()
+	}
+	serving("after-restart")
+	s.srv.Stop()
+	return emit()
 }
 
 // rstClose makes the client vanish with a reset (linger 0) instead of an orderly FIN.
@@ -1321,10 +1488,11 @@ func c15runSeq(idx int, q c15seq) run.Result {
 var _ = resp.Cmd
 
 func init() {
+	extra["c15-accept-victim"] = c15AcceptVictimMain
 	run.Register(&run.Prop{
 		ID: "C15", Level: "fault_enumeration",
 		Rule: func(tier string) string {
-			return "two parts. (gated, hook H2) a controller parks goroutines at named schedule points and releases them in a chosen order: Restart vs the exiting accept loops for {plain, TLS, both} listeners with each old loop's exit (and its deferred close) placed before Stop returns / after the new listeners are open / concurrently (3, 3 and 9 placements); Stop vs a connection accepted while Stop is between its two phases; Stop vs connection goroutines parked at their exit point; Stop in the middle of a connect storm (16 dialing goroutines, repeated; a connection that answers after Stop returned, or that is still registered at a fixed point, is a violation); Stop while a client whose handler is still running has already gone away by reset or FIN (the reset is known to have arrived when the kernel no longer lists the server-side socket); Stop while 24..64 registered clients hang up by FIN and reset at the same moment (free-running, repeated). What Stop promises is probed whenever Stop returns, with or without an error. Stop while a client of the TLS port has connected but not sent its ClientHello (it must see EOF or a reset within 3 s). Restart while an accepted connection's goroutine is held at its first step (schedule point conn.accepted), before it has registered: the connection must not be served afterwards. A Start that fails in its TLS half (the TLS port is held by another socket) must leave the plain port bindable, and after Stop a new Start must work. A transient Accept failure: every free descriptor of the process is taken, one client per port is left waiting in the listen queue so that Accept fails with EMFILE, the descriptors are released, and every port must serve again. Postconditions probed after everything is released: dial+PING on every enabled port (twice), bind probe, client-side EOF, Conns() empty, goroutine profile. (histories) ALL call sequences over {Start, Stop, Restart} up to length 4 (quick) / 6 (thorough) x {plain, plain+TLS} with 0..3 clients connecting, idling or disconnecting between calls (and, on the TLS port, clients that a common-name rule refuses after their handshake); after each call the promise of that call is probed, and at quiescent instants len(Conns()) must equal the number of client sockets held open (waiting on the conn.deregistered point, not on time). Start on a running server is tagged start-while-running. A goroutine leak is only reported when the count stays above baseline for the whole grace window; a goroutine parked at its own schedule point after Stop returned is a strict violation. Children are race-detector builds. distinct = scenario/sequence"
+			return "two parts. (gated, hook H2) a controller parks goroutines at named schedule points and releases them in a chosen order: Restart vs the exiting accept loops for {plain, TLS, both} listeners with each old loop's exit (and its deferred close) placed before Stop returns / after the new listeners are open / concurrently (3, 3 and 9 placements); Stop vs a connection accepted while Stop is between its two phases; Stop vs connection goroutines parked at their exit point; Stop in the middle of a connect storm (16 dialing goroutines, repeated; a connection that answers after Stop returned, or that is still registered at a fixed point, is a violation); Stop while a client whose handler is still running has already gone away by reset or FIN (the reset is known to have arrived when the kernel no longer lists the server-side socket); Stop while 24..64 registered clients hang up by FIN and reset at the same moment (free-running, repeated). What Stop promises is probed whenever Stop returns, with or without an error. Stop while a client of the TLS port has connected but not sent its ClientHello (it must see EOF or a reset within 3 s). Restart while an accepted connection's goroutine is held at its first step (schedule point conn.accepted), before it has registered: the connection must not be served afterwards. A Start that fails in its TLS half (the TLS port is held by another socket) must leave the plain port bindable, and after Stop a new Start must work. A transient Accept failure: every free descriptor of the process is taken, one client per port is left waiting in the listen queue so that Accept fails with EMFILE, the descriptors are released, and every port must serve again. A hard Accept failure: the scenario (Start, six service requests per port, Stop and its postconditions, Start, six requests, Restart, six requests) runs in a victim process under strace fault injection, every second accept4 call failing with one of ENOBUFS, EPROTO, EHOSTUNREACH, EMFILE (thorough: also ENOMEM, EPERM, ENETDOWN, ENFILE, EOPNOTSUPP) - errors the runtime does not mark temporary as well as ones it does; the injections are counted from strace's log. Postconditions probed after everything is released: dial+PING on every enabled port (twice), bind probe, client-side EOF, Conns() empty, goroutine profile. (histories) ALL call sequences over {Start, Stop, Restart} up to length 4 (quick) / 6 (thorough) x {plain, plain+TLS} with 0..3 clients connecting, idling or disconnecting between calls (and, on the TLS port, clients that a common-name rule refuses after their handshake); after each call the promise of that call is probed, and at quiescent instants len(Conns()) must equal the number of client sockets held open (waiting on the conn.deregistered point, not on time). Start on a running server is tagged start-while-running. A goroutine leak is only reported when the count stays above baseline for the whole grace window; a goroutine parked at its own schedule point after Stop returned is a strict violation. Children are race-detector builds. distinct = scenario/sequence"
 		},
 		Exhaustive:    func(string) bool { return true },
 		Assumptions:   []string{"TLS listeners are configured through the file-based path with a PKI minted at run time", "wall-clock watchdogs only produce 'inconclusive'"},
